@@ -76,6 +76,19 @@ func runC14(res *lib.Result, tier string, seed int64, args []string) error {
 		lines := strings.Split(strings.TrimRight(base, "\n"), "\n")
 		for k := 0; k < nPos; k++ {
 			at := r.Intn(len(lines) + 1)
+			forceUntil := false
+			if k == 0 {
+				// the first position of a program that has a repeat loop is inside its until-condition
+				var us []int
+				for j, l := range lines {
+					if strings.HasPrefix(strings.TrimSpace(l), "until ") {
+						us = append(us, j)
+					}
+				}
+				if len(us) > 0 {
+					at, forceUntil = us[r.Intn(len(us))], true
+				}
+			}
 			if at > 0 && strings.HasPrefix(strings.TrimSpace(lines[at-1]), "return") {
 				continue
 			}
@@ -110,7 +123,7 @@ func runC14(res *lib.Result, tier string, seed int64, args []string) error {
 			// ('end', 'until …', 'else', 'elseif …') follows on the same line
 			// the cursor inside the condition of `until`: the locals of the repeat body are visible there
 			untilMode := false
-			if at < len(lines) && strings.HasPrefix(strings.TrimSpace(lines[at]), "until ") && r.Chance(1, 2) {
+			if at < len(lines) && strings.HasPrefix(strings.TrimSpace(lines[at]), "until ") && (forceUntil || r.Chance(1, 2)) {
 				untilMode = true
 				ui := lines[at][:len(lines[at])-len(strings.TrimLeft(lines[at], " "))]
 				ins = ui + "until " + prefix
@@ -122,7 +135,16 @@ func runC14(res *lib.Result, tier string, seed int64, args []string) error {
 				ins = ""
 				_ = ins2
 			}
-			if !untilMode && at < len(lines) && r.Chance(1, 3) {
+			// the second position of a program with re-declarations: the cursor stands between two declarations of one
+			// name in the same block (the later one is not visible yet, the earlier one is)
+			sandwich := nonUnique && k == 1 && !untilMode
+			lineShift := 0
+			if sandwich {
+				nl = append(nl, indent+"local "+prefix+"sw = 1")
+				lineShift = 1
+				res.Dist("cursor.between-two-declarations-of-one-name")
+			}
+			if !untilMode && !sandwich && at < len(lines) && r.Chance(1, 3) {
 				t := strings.TrimSpace(lines[at])
 				if t == "end" || strings.HasPrefix(t, "until ") || t == "else" || strings.HasPrefix(t, "elseif ") || strings.HasPrefix(t, "end)") {
 					nl = append(nl, ins+tail+" "+t)
@@ -136,12 +158,15 @@ func runC14(res *lib.Result, tier string, seed int64, args []string) error {
 				ins = ui + "until " + prefix
 			} else if ins != "" {
 				nl = append(nl, ins+tail)
+				if sandwich {
+					nl = append(nl, indent+"local "+prefix+"sw = 2")
+				}
 			} else {
 				ins = indent + ctx[0] + prefix
 			}
 			nl = append(nl, rest...)
 			src := strings.Join(nl, "\n") + "\n"
-			line, col := at+1, len(ins) // 1-based line for the driver; col = end of prefix
+			line, col := at+1+lineShift, len(ins) // 1-based line for the driver; col = end of prefix
 			ans, err := drv.Ask(fmt.Sprintf("complete %s %s %d %d", lib.Hex([]byte(src)), lib.ConvTableFor([]byte(src)), line, col))
 			if err != nil {
 				return err
